@@ -24,7 +24,7 @@ RULE = ("Connected oriented triangulated surfaces built by the harness: grids, c
         "The cutter's verbose option is drawn (stdout captured: silent iff not verbose); the results output_mesh, cut_edges, "
         "cut_graph, cut_adj, ref_vertex are read in a drawn order followed by 0-4 re-reads, every read of one result must agree and "
         "the oracles use the last values; the singularities argument (list / tuple / int64 array / vertex attribute) and the "
-        "detector's sets must be unchanged afterwards; inputs uniformly scaled by 1e-6..1e6. "
+        "detector's sets must be unchanged afterwards; inputs uniformly scaled by 1e-6..1e6 and/or translated by 1e3 / 1e6 times their extent; faces given as lists / tuples / numpy rows; the library switches config.sort_neighborhoods and config.display_duplicate_attribute_warning are drawn per case. "
         "Sub-check cut_twice cuts the same mesh object a second time with an independent cutter "
         "(other / same / subset / empty singularity set, features on or off in either order, detector reused or re-run), applies "
         "every oracle to the second result too and checks that the input mesh's vertices and faces are unchanged. "
@@ -300,12 +300,14 @@ def cut_case(draw, big=False, twice=False):
     if trap is None and not big and draw(st.integers(0, 11)) == 0:
         # crease + exact ties: two singular vertices one above the other next to the fold of a bent sheet of equilateral
         # triangles: the upper one sees two equally close feature vertices through the lower one
-        n, m = draw(st.integers(3, 9)), draw(st.integers(4, 9))
-        jc = draw(st.integers(1, m - 1))
+        n, m = draw(st.integers(5, 10)), draw(st.integers(6, 10))
+        jc = draw(st.integers(2, m - 3))
         V, F = bent_sheet(n, m, jc)
-        js = [j for j in range(1, m - 1) if j != jc and j + 1 != jc] or [1]
+        js = [j for j in range(1, m - 1) if j != jc and j + 1 != jc]
+        near = [j for j in js if j in (jc + 1, jc - 2)]        # the pair touches the row next to the fold
+        js = near if (near and draw(st.integers(0, 3)) > 0) else js
         j = js[_pick(draw, len(js))]
-        i = draw(st.integers(1, n - 1))
+        i = draw(st.integers(2, n - 2)) if draw(st.integers(0, 3)) > 0 else draw(st.integers(1, n - 1))
         crease = [j * (n + 1) + i, (j + 1) * (n + 1) + i]
         trap = crease                      # same treatment: exact geometry kept (no coincident positions, scale 1)
         tags = ["base=crease-tie"]
@@ -410,12 +412,20 @@ def cut_case(draw, big=False, twice=False):
     sc = draw(st.sampled_from([1.0, 1.0, 1.0, 1.0, 1e-3, 1e-6, 1e3, 1e6]))
     if trap is not None:
         sc = 1.0                   # the ties must stay exact
+    # data far from the origin compared with its size (translation by 1e3 .. 1e6 times the extent)
+    far_off = draw(st.sampled_from([0.0, 0.0, 0.0, 0.0, 1e3, 1e6])) if trap is None else 0.0
+    if far_off:
+        A = np.array(V, dtype=float) * sc
+        ext = float(np.max(np.ptp(A, axis=0))) or 1.0
+        V = (np.array(V, dtype=float) + np.array([1.0, -0.5, 0.25]) * far_off * ext / sc).tolist()
+        tags = tags + [f"far-from-origin={far_off:g}"]
     if sc != 1.0:
         V = (np.array(V, dtype=float) * sc).tolist()
         tags = tags + [f"scale={sc:g}"]
     case = {"V": V, "F": F, "tags": tags, "singus": S, "mode": mode, "features": feat, "hard": hard,
             "singu_form": draw(st.sampled_from(["list", "list", "attribute", "numpy", "tuple", "list"])),
             "verbose": draw(st.booleans()), "detector_verbose": draw(st.integers(0, 3)) == 0,
+            "mesh_form": draw(st.sampled_from(["list", "list", "tuple", "numpy"])),
             "reads": draw(read_order()),
             # library-wide switches (mouette.config), set before the mesh is built
             "config": {"sort_neighborhoods": draw(st.integers(0, 3)) > 0,
@@ -793,7 +803,10 @@ def fn(case, ctx):
     ctx.label("config:sort_neighborhoods=" + ("on" if M.config.sort_neighborhoods else "off"),
               "config:duplicate-attribute-returns-existing=" + ("on" if M.config.display_duplicate_attribute_warning else "off"))
     hard = [tuple(e) for e in case.get("hard", [])]
-    m = surface_from(V, F, E=hard or None)
+    m = surface_from(V, F, E=hard or None, form=case.get("mesh_form", "list"))
+    ctx.label("mesh-form=" + case.get("mesh_form", "list"))
+    if any(t.startswith("far-from-origin") for t in case["tags"]):
+        ctx.label("far-from-origin")
     ok, fd = make_detector(ctx, M, m, feat, verbose=bool(case.get("detector_verbose")))
     if not ok:
         return
